@@ -313,4 +313,19 @@ theorem Mat4.inverse_unique (m b : Mat4 K) (h : Mat4.det m ≠ 0) (hb : Mat4.mul
     _ = Mat4.inverse m := by rw [hb, Mat4.mul_one]
 end Mat4Laws
 
+section InvComp
+open Mat3 Xf
+/-- **inverse of a composition = reversed composition of the inverses** (`InverseTransform` of a node chain can be
+computed link by link) -/
+theorem inverse_compose_rev (a b : Xf K) (har : a.r.det ≠ 0) (has : a.s ≠ 0) (hbr : b.r.det ≠ 0) (hbs : b.s ≠ 0) :
+    (a.compose b).inverse = b.inverse.compose a.inverse := by
+  have hr : (a.compose b).r.det ≠ 0 := by
+    show (a.r.mul b.r).det ≠ 0
+    rw [mat3_det_mul]; exact mul_ne_zero har hbr
+  have hs : (a.compose b).s ≠ 0 := mul_ne_zero has hbs
+  symm
+  apply inverse_unique (a.compose b) _ hr hs
+  rw [compose_assoc, ← compose_assoc b, compose_inverse b hbr hbs, id_compose, compose_inverse a har has]
+end InvComp
+
 end Nifly.Xform
